@@ -21,7 +21,7 @@
    number of rows (the documented "[out] predicted_y" says nothing about it having to be empty) */
 #define C07_PROBE_CONTAINER_REUSE 1
 
-static long ncases(int tier) { return tier ? 400000 : 30000; }
+static long ncases(int tier) { return tier ? 400000 : 60000; }
 
 typedef struct {
   ldm *Z;            /* [1 X] */
